@@ -343,6 +343,103 @@ pub fn check_case(case: &Case, ctx: &mut Ctx, known_hidden: bool) -> Verdict {
         );
     }
 
+    // the bytes of a value never decide whether a sentence is accepted: for string, OS-string
+    // and path targets a hard value (empty, `=`, spaces, non-ASCII, non-UTF-8, attached leading
+    // dash) may be replaced by a plain one without turning a rejection into a success
+    if case.mutated.is_none() && !matches!(out_a, Outcome::Value(_)) {
+        let leaves = case.level.body.named_leaves(true);
+        let stringy = |leaf: usize| -> Option<Ty> {
+            leaves.iter().find(|l| l.id == leaf).and_then(|l| match &l.kind {
+                NamedKind::Arg { ty, .. } if !ty.is_num() => Some(*ty),
+                _ => None,
+            })
+        };
+        let mut hard_items: Vec<(usize, &'static str, String)> = Vec::new();
+        for it in &case.lay.items {
+            match &it.kind {
+                LKind::Occ(o) => {
+                    let vc = value_class(&o.value);
+                    if !matches!(vc, "flag" | "plain") {
+                        if let Some(ty) = stringy(o.leaf) {
+                            hard_items.push((it.uid, vc, format!("{:?}", ty)));
+                        }
+                    }
+                }
+                LKind::Word(w) => {
+                    let vc = value_class(&Some(w.clone()));
+                    if matches!(vc, "empty" | "non-utf8" | "has-eq" | "has-space" | "non-ascii") {
+                        hard_items.push((it.uid, vc, "word".into()));
+                    }
+                }
+                _ => {}
+            }
+        }
+        let variant = |uids: &[usize]| -> (Vec<Vec<u8>>, Outcome) {
+            let mut lay = case.lay.clone();
+            for x in &mut lay.items {
+                if uids.contains(&x.uid) {
+                    let plain = format!("pv{}", x.uid).into_bytes();
+                    match &mut x.kind {
+                        LKind::Occ(o) => o.value = Some(plain),
+                        LKind::Word(w) => *w = plain,
+                        _ => {}
+                    }
+                }
+            }
+            let mut st = SpellStats::default();
+            let (argv, _) = render(&lay, &case.plan_a, &opts, &mut st);
+            let out = run(&parser, &argv);
+            (argv, out)
+        };
+        if !hard_items.is_empty() {
+            let all: Vec<usize> = hard_items.iter().map(|h| h.0).collect();
+            let (argv_p, out_p) = variant(&all);
+            ctx.eval(1);
+            ctx.class("hard-to-plain-probe");
+            if let Outcome::Value(_) = &out_p {
+                // localise: a single item whose replacement alone is enough
+                let mut culprit = None;
+                for h in &hard_items {
+                    let (_, o) = variant(&[h.0]);
+                    ctx.eval(1);
+                    if matches!(o, Outcome::Value(_)) {
+                        culprit = Some(h.clone());
+                        break;
+                    }
+                }
+                let glued_raw = case.lay.items.iter().any(|i| match &i.kind {
+                    LKind::Occ(o) => {
+                        o.value.as_ref().map_or(false, |v| std::str::from_utf8(v).is_err())
+                            && case
+                                .plan_a
+                                .plan
+                                .iter()
+                                .any(|p| p.0 == i.uid && p.1 == Spelling::Glued)
+                    }
+                    _ => false,
+                });
+                let sig = if glued_raw {
+                    SIG_GLUED_NON_UTF8.to_owned()
+                } else {
+                    match &culprit {
+                        Some((_, vc, ty)) => format!("value-bytes-decide-acceptance/{}/{}", vc, ty),
+                        None => "value-bytes-decide-acceptance/several".to_owned(),
+                    }
+                };
+                return Verdict::fail(
+                    sig,
+                    format!(
+                        "{:?} -> {}\nbut with plain values in the same places {:?} -> {}",
+                        show_argv(&argv_a),
+                        out_a.short(),
+                        show_argv(&argv_p),
+                        out_p.short()
+                    ),
+                );
+            }
+        }
+    }
+
     // byte exact delivery
     if case.mutated.is_none() {
         if let Outcome::Value(v) = &out_a {
